@@ -7,6 +7,7 @@ from typing import Any
 
 from harness.common import Ck
 from harness.c07_util import World
+from translate import c07_index_sites
 
 MANIFEST = dict(
     technique='Rocq proof (index invariant preserved by every operation, by induction over operation sequences on several maps; search() sound and complete; worldspawn pinned) + ast census of Entity._keys writers and index update sites + vm_compute operation-sequence correspondence + scan oracle on real VMF objects',
@@ -21,6 +22,8 @@ TN_KEYS = ['targetname', 'targetname', 'TargetName', 'TARGETNAME']
 OTHER_KEYS = ['origin', 'Origin', 'x']
 QUERIES = ['a', 'A', 'ab', 'AB', 'a*', 'A*', '*', '', 'a1', 'worldspawn', 'WORLDSPAWN', 'ab*', 'info_null', 'b']
 MAX_OBJS = 6
+MODEL_DIGESTS: dict = {'CopySet.__iter__': '18a885efeefc', '_remove_copyset': '590e345663d7', 'VMF.search': '8cbe23d1283f',
+                       'Entity.make_unique': '11a000401c4a'}
 MAX_MAPS = 3
 
 
@@ -417,11 +420,11 @@ def run_case(ops) -> tuple[list, list]:
     return steps, queries
 
 
-def corr(ck: Ck) -> None:
-    n = ck.budget(360, 6000)
+def corr(ck: Ck, escalate: bool = False) -> None:
+    n = 6000 if escalate else ck.budget(240, 6000)
     cases = []
     seqs: list = list(CORPUS)
-    if ck.thorough or ck.tie_broken:
+    if ck.thorough or ck.tie_broken or escalate:
         seqs += list(exhaustive_short())
     while len(seqs) < n:
         seqs.append(gen_ops(ck.rng, ck.rng.choice([3, 6, 12, 25, 40])))
@@ -505,9 +508,11 @@ def exhaustive_short():
         alphabet += [('clear', 0, e), ('popitem', 0, e), ('rem', 0, e, True), ('uniq', 0, e, 'a'), ('copy', 0, e, 1)]
     alphabet += [('add', 0, 1), ('export', 0), ('add', 1, 1)]
     for a in alphabet:
-        yield base + [a]
+        if valid(base + [a]):
+            yield base + [a]
     for a, b in itertools.product(alphabet, repeat=2):
-        yield base + [a, b]
+        if valid(base + [a, b]):
+            yield base + [a, b]
 
 
 # ------------------------------------------------------------------------------------------------ main
@@ -523,10 +528,32 @@ def run(ck: Ck) -> None:
         'operations refer to Entity objects created with the same VMF as parent; vmf.add_ent(vmf.spawn) is outside the domain',
         "the 'nodeid' keyvalue processing of __setitem__/__delitem__/add_ent/remove_ent (property C08) does not touch classname/targetname and is not modelled",
     ]
-    built = ck.build(['Props/C07.vo'])
+    ok_t = ck.translate('IndexSites_gen', c07_index_sites.translate)
+    side = ck.extra.get('translated', {}).get('IndexSites_gen', {})
+    built = ck.build(['Props/C07.vo'] + (['SM/IndexCensus.vo'] if ok_t else []))
     if built:
         ck.theorems('Props/C07.v')
-        corr(ck)
+        if ok_t:
+            obs = {
+                'all_key_writers_modelled': 'all_key_writers_modelled',
+                'all_index_writers_modelled': 'all_index_writers_modelled',
+                'every_modelled_index_writer_seen': 'every_modelled_writer_seen',
+                'entity_index_adds_guarded_by_membership': 'entity_adds_guarded',
+                'setitem_rekeys_by_class_remove_and_add': 'rekeys_balanced "Entity.__setitem__" "by_class"',
+                'setitem_rekeys_by_target_remove_and_add': 'rekeys_balanced "Entity.__setitem__" "by_target"',
+                'delitem_rekeys_by_target_remove_and_add': 'rekeys_balanced "Entity.__delitem__" "by_target"',
+                'remove_ent_removes_from_both': 'existsb (fun s => String.eqb (site_fn s) "VMF.remove_ent" && String.eqb (site_ix s) "by_class") index_sites && existsb (fun s => String.eqb (site_fn s) "VMF.remove_ent" && String.eqb (site_ix s) "by_target") index_sites',
+                'parse_drops_placeholder_spawn': 'existsb (fun s => String.eqb (site_fn s) "VMF.parse" && String.eqb (site_ix s) "by_class" && negb (site_add s)) index_sites && existsb (fun s => String.eqb (site_fn s) "VMF.parse" && String.eqb (site_ix s) "by_target" && negb (site_add s)) index_sites',
+            }
+            for fn in sorted({s[0] for s in side.get('index_sites', [])}):
+                obs[f'index_keys_folded_in:{fn}'] = f'keys_folded_in "{fn}"'
+            ck.instance_obligations(['Coq.Lists.List', 'Coq.Strings.String', 'Coq.Bool.Bool', 'SV.Gen.IndexSites_gen', 'SV.SM.IndexCensus'],
+                                    obs, name='census')
+        # a changed hand-modelled function escalates the correspondence budget (never an alarm by itself)
+        if side.get('digests') and side['digests'] != MODEL_DIGESTS:
+            ck.notes.append(f'hand-modelled functions changed since the model was written ({side["digests"]}): thorough correspondence budget')
+            ck.extra['digest_escalation'] = True
+        corr(ck, escalate=bool(ck.extra.get('digest_escalation')))
     search(ck)
     keys = {v['key'] for v in ck.violations}
     if keys:
